@@ -9,4 +9,4 @@ Extraction "model.ml" Z.add N.add Nat.add Pos.add
   NumStrModel.format_int NumStrModel.parse_int NumStrModel.fmt_unsigned NumStrModel.fmt_signed
   NumStrModel.c_unsigned NumStrModel.parse_digits NumStrModel.quote_int NumStrModel.lit_int
   QuoteModel.quote QuoteModel.lua_string_literal QuoteModel.is_print_tab
-  FmtModel.go_fmt FmtModel.c_fmt FmtModel.c_defined FmtModel.defect_class_src.
+  FmtModel.go_fmt FmtModel.go_fmt_s FmtModel.go_fmt_c FmtModel.c_fmt_s FmtModel.c_fmt_c FmtModel.c_fmt FmtModel.c_defined FmtModel.defect_class_src.
